@@ -241,6 +241,21 @@ theorem layout_facts :
     Facts.C04.dataEncodeNoCopy = Facts.C04.dataEncode :=
   ⟨rfl, rfl, rfl, rfl, rfl, rfl, rfl, rfl, rfl, rfl, rfl, rfl, rfl, rfl, rfl, by decide, rfl, by decide⟩
 
+/-- Statement order of the cipher's control flow as read from the source — the order the hand-written
+`encryptPlain` / `decryptMessage` / `decrypt` follow: the padding length is computed from the plaintext
+length and one random byte *before* the padding is read; msg_key is taken over the padded plaintext,
+then the keys, then IGE; on the way in: key id, alignment, keys, IGE, msg_key comparison, header
+decoding, then the bounds switch. -/
+theorem control_flow_facts :
+    Facts.C04.encryptMessageOrder = ["offset-is-length", "read-rand-byte", "append-padding", "read-padding",
+      "msg-key", "keys", "frame", "ige-encrypt"] ∧
+    Facts.C04.encryptOrder = ["reset", "encode-data", "encrypt", "reset-again", "encode-message"] ∧
+    Facts.C04.decryptMessageOrder = ["key-id-check", "align-check", "keys", "ige-decrypt"] ∧
+    Facts.C04.decryptOrder = ["decrypt-message", "msg-key", "msg-key-check", "decode-data", "n", "padding-len",
+      "checks", "return"] ∧
+    Facts.C04.decryptFromBufferOrder = ["decode-frame", "decrypt"] :=
+  ⟨rfl, rfl, rfl, rfl, rfl⟩
+
 /-- Non-vacuity: the hypotheses of `decrypt_encrypt` hold for a concrete message, and the statement
 is about a real ciphertext (toy primitives). -/
 example : ∃ c, encrypt Prims.toy .client (List.replicate 256 3) (List.replicate 8 9) 1 2 3 4 [1, 2, 3, 4]
